@@ -362,6 +362,26 @@ impl Server {
             .unwrap_or_default();
 
         // parse-only requests (C15): statuses for a list of sources
+        // list the global environment (names, whether callable, display form)
+        if req.get("globals").is_some() {
+            let e = self.pristine.borrow();
+            let mut names: Vec<&String> = e.vars.keys().collect();
+            names.sort();
+            let out: Vec<Value> = names
+                .iter()
+                .map(|n| {
+                    let cell = &e.vars.get(*n).unwrap().1;
+                    let o = cell.borrow();
+                    let (callable, disp) = match &*o {
+                        Obj::Func(f, _) => (true, format!("{}", f)),
+                        other => (false, format!("{}", other)),
+                    };
+                    json!([n, callable, disp])
+                })
+                .collect();
+            return json!({"id": req.get("id"), "globals": out});
+        }
+
         if let Some(srcs) = req.get("parse").and_then(|x| x.as_array()) {
             let mut out = String::new();
             let mut panics = Vec::new();
@@ -451,10 +471,12 @@ impl Server {
         }
         self.take_output();
 
-        let mut results: Vec<Value> = Vec::new();
+        let step_ms = req.get("step_ms").and_then(|x| x.as_u64()).unwrap_or(4000);
+        let mut nresults = 0usize;
         if let Some(steps) = req.get("steps").and_then(|x| x.as_array()) {
             for st in steps {
                 let src = st.as_str().unwrap_or("");
+                watchdog_arm(step_ms);
                 let env = if iso { Env::with_parent(&base) } else { base.clone() };
                 noulith::verif_hooks::reset(fuel, depth);
                 if let Some(t) = want_alloc {
@@ -544,18 +566,57 @@ impl Server {
                     }
                     self.take_output();
                 }
-                results.push(Value::Object(r));
+                watchdog_disarm();
+                // one flushed line per step: a death is attributed to the first step without a line
+                emit(&Value::Object(r));
+                nresults += 1;
                 if failed && stop {
                     break;
                 }
             }
         }
-        json!({"id": req.get("id"), "r": results})
+        watchdog_disarm();
+        json!({"id": req.get("id"), "done": nresults})
     }
+}
+
+fn emit(v: &Value) {
+    let stdout = std::io::stdout();
+    let mut o = stdout.lock();
+    let _ = writeln!(o, "{}", v);
+    let _ = o.flush();
+}
+
+// ---------------------------------------------------------------- watchdog
+// Deadline (ms since start) of the step being evaluated, 0 = disarmed. A step that overruns it
+// (a loop inside Rust code that never reaches the fuel hook) gets a `{"watchdog":true}` line and
+// the process exits; the explorer restarts the engine and continues after that step.
+static DEADLINE_MS: AtomicU64 = AtomicU64::new(0);
+static START: std::sync::OnceLock<std::time::Instant> = std::sync::OnceLock::new();
+
+fn now_ms() -> u64 {
+    START.get_or_init(std::time::Instant::now).elapsed().as_millis() as u64 + 1
+}
+fn watchdog_arm(ms: u64) {
+    DEADLINE_MS.store(now_ms() + ms, Ordering::SeqCst);
+}
+fn watchdog_disarm() {
+    DEADLINE_MS.store(0, Ordering::SeqCst);
+}
+fn spawn_watchdog() {
+    std::thread::spawn(|| loop {
+        std::thread::sleep(std::time::Duration::from_millis(15));
+        let d = DEADLINE_MS.load(Ordering::SeqCst);
+        if d != 0 && now_ms() > d {
+            emit(&json!({"watchdog": true}));
+            std::process::exit(3);
+        }
+    });
 }
 
 fn serve() {
     install_panic_hook();
+    spawn_watchdog();
     let sink = Sink(Rc::new(RefCell::new(Vec::new())));
     let pristine = new_full_env(&sink);
     let mut server = Server { sink, pristine, current: None };
@@ -577,9 +638,8 @@ fn serve() {
             Ok(req) => server.handle(&req),
             Err(e) => json!({"bad_request": e.to_string()}),
         };
-        let mut o = stdout.lock();
-        let _ = writeln!(o, "{}", resp);
-        let _ = o.flush();
+        let _ = &stdout;
+        emit(&resp);
     }
 }
 
